@@ -9,7 +9,7 @@ Driver for C15.  One request line = one history:
   `frequency_scale_factor`)
 
 ops (`$k` = the array created / handed out by step `k` of this history, 0-based):
-  `new fc|nac|ds <v> <own 0|1>` · `setfc $k` · `produce` · `sym <l>` · `symsg` · `cut <r>` ·
+  `new fc|nac|ds <v> <own 0|1>` · `setfc $k` · `produce` · `setforces <f>` · `setenergies <e>` · `producewith <f>` · `sym <l>` · `symsg` · `cut <r>` ·
   `setnac $k|-` · `setmasses <m>` · `setds $k|-` · `copy` · `mut $k <v>` · `q freq|gv|fc|nac|masses|ds|disps`
 
 answer: for every step `<out> @ <flag> <digest>` joined by ` | `, where `<flag>` is `D` when the
@@ -18,7 +18,8 @@ step is a caller mutation of an array the object can reach (`MutatesReachable`),
 The numerical routines are instantiated by a free term encoding (injective on the values used,
 levels and radii < 4), which the harness decodes and evaluates with the real routines:
   leaf k ↦ 7k · sym l v ↦ 7(4v+l)+1 · symSG v ↦ 7v+2 · cut r v ↦ 7(4v+r)+3 · produce v ↦ 7v+4 ·
-  symNac v ↦ 7v+5 · scale v ↦ 7v+6 ; a NAC leaf k is Wang iff k is odd.
+  symNac v ↦ 7v+5 · scale v ↦ 7v+6 ; datasets: leaf k ↦ 7k · setF f v ↦ 7(8v+f)+1 · setE e v ↦ 7(8v+e)+2 ·
+  dispOf v ↦ 7v+3 ; a NAC leaf k is Wang iff k is odd.
 -/
 
 def Fterm : Fns :=
@@ -28,7 +29,10 @@ def Fterm : Fns :=
     produce := fun v => 7 * v + 4
     symNac := fun v => 7 * v + 5
     isWang := fun v => v % 7 == 0 && (v / 7) % 2 == 1
-    scale := fun v => 7 * v + 6 }
+    scale := fun v => 7 * v + 6
+    setF := fun f v => 7 * (8 * v + f % 8) + 1
+    setE := fun e v => 7 * (8 * v + e % 8) + 2
+    dispOf := fun v => 7 * v + 3 }
 
 def so (x : Option Nat) : String := match x with | none => "-" | some v => toString v
 
@@ -76,6 +80,9 @@ def parseOp (toks : List String) (outs : Array Out) : Option (Option Op) :=
     pure (some (.newArr v own kind))
   | ["setfc", h] => do let r ← parseHandle h outs; pure (r.map .setFc)
   | ["produce"] => some (some .produceFc)
+  | ["setforces", f] => do let f ← f.toNat?; if f < 8 then pure (some (.setForces f)) else none
+  | ["setenergies", e] => do let e ← e.toNat?; if e < 8 then pure (some (.setEnergies e)) else none
+  | ["producewith", f] => do let f ← f.toNat?; if f < 8 then pure (some (.produceFcWith f)) else none
   | ["sym", l] => do let l ← l.toNat?; if l < 4 then pure (some (.symmetrizeFc l)) else none
   | ["symsg"] => some (some .symmetrizeFcSpaceGroup)
   | ["cut", r] => do let r ← r.toNat?; if r < 4 then pure (some (.cutoff r)) else none
